@@ -255,7 +255,7 @@ Proof.
       destruct (Hun (pre ++ b1) Hpre1 Hl1) as [_ Hl2]. rewrite app_nil_r in Hl2.
       split; [|rewrite app_nil_r; exact Hl2].
       rewrite Hst, Hex1. rewrite !lenN_app, lenN_nil.
-      rewrite N.add_0_r, N.eqb_refl. cbn [andb]. f_equal. f_equal. clear. lia.
+      rewrite N.add_0_r, N.eqb_refl. cbn [andb]. reflexivity.
     + exists (b1 ++ b2), (combine names vals ++ ext). split; [now rewrite E2, E1, app_assoc|].
       split; [exact Hk2|]. split; [exact Hzero|]. split; [discriminate|].
       split. { rewrite app_assoc. constructor; [|exact Hsame]. cbn [fst snd]. apply Hthis. }
